@@ -332,7 +332,7 @@ fn check_overflow(rep: &Report, ev: &Evaluator, expr: &str, params: &[(&str, i64
 
 pub fn c22(tier: Tier) -> i32 {
     let rep = Report::new("C22", tier);
-    rep.rule("failing expressions E (invalid toBoolean / toInteger / toFloat / toString arguments, labels() / type() on scalars, list index of the wrong type, range() above the collection limit) x row lists of length 3 with the failing row first / middle / last x result operators W (RETURN, RETURN DISTINCT, UNION, UNION ALL (either arm), ORDER BY, WITH..WHERE, WITH DISTINCT, count / collect, CALL {}, SKIP 0, LIMIT 3, list comprehension, CASE, sort keys that hide the call in CASE / a comprehension / a list, ORDER BY followed by a LIMIT that keeps fewer rows, several aggregates in one projection with count(*) first) and, thorough, all nestings of two operators; a control run with only good rows must succeed; oracle: collecting the result yields an error; non-trivial = (E, position, W) instances whose control run succeeded");
+    rep.rule("failing expressions E (invalid toBoolean / toInteger / toFloat / toString arguments, labels() / type() on scalars, list index of the wrong type, range() above the collection limit) x row lists of length 3 (thorough: 5) with the failing row at every position x result operators W (RETURN, RETURN DISTINCT, UNION, UNION ALL (either arm), ORDER BY, WITH..WHERE, WITH DISTINCT, count / collect, CALL {}, SKIP 0, LIMIT 3, list comprehension, CASE, sort keys that hide the call in CASE / a comprehension / a list, ORDER BY followed by a LIMIT that keeps fewer rows, several aggregates in one projection with count(*) first); a control run with only good rows must succeed; oracle: collecting the result yields an error; non-trivial = (E, position, W) instances whose control run succeeded");
     let ev = Evaluator::new();
     // (name, expression over x, good values, bad value)
     let exprs: Vec<(&str, &str, Vec<Value>, Value)> = vec![
@@ -383,19 +383,24 @@ pub fn c22(tier: Tier) -> i32 {
         ("grouped_count_star_then_collect", Box::new(|e| format!("UNWIND $l AS x RETURN 1 AS k, count(*) AS n, collect({e}) AS r"))),
         ("min_max", Box::new(|e| format!("UNWIND $l AS x RETURN min({e}) AS a, max({e}) AS r"))),
     ];
-    let _ = tier;
+    let len = tier.pick(3usize, 5);
     let mut n = 0u64;
     for (ename, e, good, bad) in &exprs {
         for (wname, w) in &wrappers {
             let q = w(e);
             // control: only good rows
-            let control = ev.rows(&q, &[("l", Value::List(vec![good[0].clone(), good[1].clone(), good[0].clone()]))]);
+            let good_list: Vec<Value> = (0..len).map(|i| good[i % 2].clone()).collect();
+            let control = ev.rows(&q, &[("l", Value::List(good_list.clone()))]);
             if let Err(err) = &control {
                 rep.outcome(&format!("control_fails:{}", err.class()));
                 continue;
             }
-            for pos in 0..3usize {
-                let mut l = vec![good[0].clone(), good[1].clone(), good[0].clone()];
+            for pos in 0..len {
+                // LIMIT-style wrappers only consume a prefix: keep the failing row inside it
+                if wname.contains("LIMIT_3") && pos >= 3 {
+                    continue;
+                }
+                let mut l = good_list.clone();
                 l[pos] = bad.clone();
                 n += 1;
                 rep.add_nontrivial(1);
